@@ -438,7 +438,7 @@ def native(seed=0):
                             read_back=len(back_m.dynamics.dt) if back_m.dynamics is not None else None))
         elif not (back_m == sol_m) or not np.array_equal(back_m.times, sol_m.times):
             bad.append(dict(what="in-memory solution differs from its copy read back from disk"))
-        for tp in (None, 0.0):
+        for tp in (None, 0.0, 0.3 + 0.4j):
             opts = tdgl.SolverOptions(solve_time=0.5, save_every=10, terminal_psi=tp, adaptive=False, dt_init=1e-2, pause_on_interrupt=False, progress_interval=None,
                                       output_file=os.path.join(td, f"s{tp}.h5"))
             sol = tdgl.solve(dev, opts, applied_vector_potential=0.2)
@@ -447,6 +447,12 @@ def native(seed=0):
                 n += 1
                 with h5py.File(sol.path, "r") as f:
                     raw = np.array(f["data"][str(step)]["psi"])
+                    raw_all = {k_: np.array(f["data"][str(step)][k_]) for k_ in ("mu", "supercurrent", "normal_current", "induced_vector_potential")}
+                off = [k_ for k_, v_ in raw_all.items() if not np.array_equal(getattr(lo.tdgl_data, k_), v_)]
+                if off:
+                    bad.append(dict(what="the data of a loaded step are not the stored datasets", step=step, fields=off,
+                                    max_abs_diff=float(max(np.abs(getattr(lo.tdgl_data, k_) - raw_all[k_]).max() for k_ in off))))
+                    break
                 if lo.options != sol.options:
                     bad.append(dict(what="options differ after round trip", saved=str(sol.options), loaded=str(lo.options)))
                     break
